@@ -40,7 +40,9 @@ def to_number(number):
         if text.lstrip('+-').isdigit():
             return whole_number(text)
         try:
-            value = float(number)
+            # (stripped: float() does not skip the separator control characters \x1c-\x1f, which
+            # the pattern above and str.strip() count as blanks - "\x1f5" was 5 and "\x1f5.5" a date)
+            value = float(text)
         except ValueError:
             value = float('inf')
         if not math.isinf(value):
